@@ -133,7 +133,7 @@ RefNormParts(u, o) ==
       items == IF o.sort THEN SortItems(kept) ELSE kept
       query == JoinWith([i \in 1..Len(items) |-> IF items[i][3] THEN items[i][1] \o <<61>> \o items[i][2] ELSE items[i][1]], 38)
       \* path
-      trailing0 == Len(c0.path) > 1 /\ c0.path[Len(c0.path)] = 47
+      trailing0 == PathDen(c0.path).trailing           \* a literal trailing slash, or a path ending with a dot segment
       p1 == StPath(c0).path
       p1n == IF p1 # <<>> /\ p1[Len(p1)] = 47 THEN SubSeq(p1, 1, Len(p1) - 1) ELSE p1      \* normpath: no trailing slash
       \* unquote what is safe BEFORE the AMP / index rules look at the path ('index%2Ehtml' is an index page)
